@@ -1,0 +1,21 @@
+//! Helpers to deserialize untrusted bytes.
+
+use cosmian_crypto_core::bytes_ser_de::Deserializer;
+
+use crate::Error;
+
+/// Reads a length-prefixed vector of bytes.
+///
+/// Contrarily to `Deserializer::read_vec`, the announced length is checked
+/// against the number of remaining bytes *before* the vector is allocated.
+pub(crate) fn read_vec(de: &mut Deserializer) -> Result<Vec<u8>, Error> {
+    let mut header = Deserializer::new(de.value());
+    let len = header.read_leb128_u64()?;
+    let remaining = header.value().len();
+    if len > remaining as u64 {
+        return Err(Error::ConversionFailed(format!(
+            "vector of length {len} announced but only {remaining} bytes remain"
+        )));
+    }
+    de.read_vec().map_err(Error::from)
+}
